@@ -1,6 +1,7 @@
 package props
 
 import (
+	"encoding/binary"
 	"fmt"
 	"os"
 	"path/filepath"
@@ -92,4 +93,31 @@ func collFor(f string) *Collector {
 		}
 	}
 	return nil
+}
+
+// TestMergeHashes counts the distinct 64-bit hashes in the files of VERIF_HASH_FILES (used by the
+// driver when the shards produced too many hashes to merge in the driver itself).
+func TestMergeHashes(t *testing.T) {
+	spec := os.Getenv("VERIF_HASH_FILES")
+	if spec == "" {
+		t.Skip("no VERIF_HASH_FILES")
+	}
+	var all []uint64
+	for _, f := range strings.Split(spec, ":") {
+		d, err := os.ReadFile(f)
+		if err != nil {
+			continue
+		}
+		for i := 0; i+8 <= len(d); i += 8 {
+			all = append(all, binary.LittleEndian.Uint64(d[i:]))
+		}
+	}
+	sort.Slice(all, func(i, j int) bool { return all[i] < all[j] })
+	n := 0
+	for i := range all {
+		if i == 0 || all[i] != all[i-1] {
+			n++
+		}
+	}
+	fmt.Printf("DISTINCT %d\n", n)
 }
